@@ -74,6 +74,19 @@ class LogIter(object):
   next = __next__
 
 
+class YieldingIterable(object):
+  """ Event data whose __iter__ is a scheduling point (as for any iterable
+  implemented in Python): add() evaluates iter(data) in the middle of its
+  own statement, so the consumer may run right there. """
+
+  def __init__(self, values, sched):
+    self.values, self.sched = values, sched
+
+  def __iter__(self):
+    self.sched.yield_point("data.iter")
+    return iter(self.values)
+
+
 class ThreadsPart(object):
   def __init__(self, prop):
     self.prop = prop
@@ -128,7 +141,9 @@ class ThreadsPart(object):
       for i in range(nev):
         d = W.pick("delta", [0, 1, 2, 0.5, 1.5, 0.25, 3, 2.75, 0.1, 5])
         ln = W.weighted("len", [(1, 0), (2, 1), (3, 3), (2, 5)])
-        script.append(["add", d, ln])
+        script.append(["add", d, ln, W.weighted("box", [(2, "list"),
+                                                        (2, "yielding"),
+                                                        (1, "stream")])])
         if i >= pre and W.chance("idle", 2, 3):
           script.append(["idle", W.pick("idlek", [1, 3, 10, 30])])
       return {"part": part, "keep": keep, "pre": min(pre, nev),
@@ -175,8 +190,10 @@ class ThreadsPart(object):
       for cons in ("plain", "audio"):
         out.append({"part": "mix-thread", "keep": True, "pre": 1,
                     "consumer": cons, "nsamples": 16, "chunk": 2,
-                    "script": [["add", 0, 3], ["idle", 3], ["add", 1.5, 2],
-                               ["add", 0, 1], ["idle", 10], ["add", 2, 3]],
+                    "script": [["add", 0, 3, "yielding"], ["idle", 3],
+                               ["add", 1.5, 2, "yielding"],
+                               ["add", 0, 1, "stream"], ["idle", 10],
+                               ["add", 2, 3, "yielding"]],
                     "knobs": kn})
         out.append({"part": "mix-thread", "keep": False, "pre": 2,
                     "consumer": cons, "nsamples": 30, "chunk": 1,
@@ -254,6 +271,11 @@ class ThreadsPart(object):
         i = nadd
         nadd += 1
         vals = [(10 ** i) * (j + 1) for j in range(op[2])]
+        box_kind = op[3] if len(op) > 3 else "list"
+        if box_kind == "yielding":
+          vals = YieldingIterable(vals, sched)
+        elif box_kind == "stream":
+          vals = ls.Stream(vals)
         a = sched.stamp()
         mix.add(op[1], vals)
         b = sched.stamp()
